@@ -227,6 +227,7 @@ func (c *Cluster) goFlushStore(sCtx signal.Context) {
 		})
 		sCtx.Go(func(ctx context.Context) error {
 			<-ctx.Done()
+			flush.Close()
 			flush.FlushSync(ctx, c.CopyState())
 			return ctx.Err()
 		},
